@@ -2,11 +2,11 @@
 (* simulation front-end of Core: random behaviours of fixed length, printed as JSON schedules *)
 EXTENDS MCBase, Json
 CONSTANT D
-Nop == /\ UNCHANGED <<envVars, obsvVars, strVars, synVars, thrVars, emitv, obs>>
+Nop == /\ UNCHANGED <<envVars, obsvVars, strVars, synVars, thrVars, marks, emitv, obs>>
        /\ hist' = Append(hist, [l |-> [a |-> "Nop"]])
 SimNext == Next \/ Nop
 SimSpec == Init /\ [][SimNext]_vars
 CfgJson == [NVB |-> NVB, InitLog |-> InitLog, FoUuid |-> FoUuid, AutoReset |-> AutoReset, Finite |-> Finite,
             AutoCkpt |-> AutoCkpt, Info0 |-> Info0]
-DumpSched == (Len(hist) = D) => PrintT(<<"SCHED", ToJson([cfg |-> CfgJson, steps |-> hist])>>)
+DumpSched == (Len(hist) = D /\ ~LockHandoff) => PrintT(<<"SCHED", ToJson([cfg |-> CfgJson, steps |-> hist])>>)
 =============================================================================
